@@ -104,7 +104,7 @@ Global Arguments exec : simpl never.
 Global Arguments expected : simpl never.
 
 (* ---------- the invariant of reachable states with a live generator ---------- *)
-Definition valid_style (y : Z) : Prop := 0 <= y <= 5.
+Definition valid_style (y : Z) : Prop := 0 <= y <= 6.
 
 (* the consumer of the outstanding access y is parked waiting for the body *)
 Definition waiting (y : Z) (s : sys) : Prop :=
@@ -132,7 +132,7 @@ Definition rem (s : sys) (args : list Z) (nc : nat) : list (item * nat) :=
   | BFinal => []
   end.
 
-Lemma valid_style_cases y : valid_style y -> y = 0 \/ y = 1 \/ y = 2 \/ y = 3 \/ y = 4 \/ y = 5.
+Lemma valid_style_cases y : valid_style y -> y = 0 \/ y = 1 \/ y = 2 \/ y = 3 \/ y = 4 \/ y = 5 \/ y = 6.
 Proof. unfold valid_style. lia. Qed.
 
 (* A body about to be resumed on behalf of access y: the caller is armed, nothing delivered yet. *)
@@ -174,7 +174,7 @@ Proof.
   unfold armed, waiting in Ha. cbn [err done exn bst argp caller ifn block fut awake] in Ha.
   destruct Ha as (He & Hd & Hx & Hw & (a0 & Hap) & Hb). subst er dn ex ap.
   unfold exec_of, run_body. cbn [bst pc gds cur argp] in *.
-  destruct (valid_style_cases y Hy) as [->|[->|[->|[->|[->| ->]]]]]; vm_compute in Hw;
+  destruct (valid_style_cases y Hy) as [->|[->|[->|[->|[->|[->| ->]]]]]]; vm_compute in Hw;
   destruct Hw as (Hw1 & Hw2); try destruct Hw2 as (Hw2 & Hw3); subst;
   (destruct bs as [| |k0|]; [| | |exfalso; apply Hb; reflexivity]);
   cbn [bst pc gds cur argp];
@@ -222,7 +222,7 @@ Definition arm (y a : Z) (s : sys) : sys :=
   let s := set_argp s (Some a) in
   if fut_style y then
     set_prom (set_cons s (out s) FPending (itn s) (awake s) (nstate s)) CInternal FFuture (Some a) (ret s) (exn s) (done s) (block s) true
-  else if y =? 3 then set_cons (set_caller s CAwt) (out s) (fut s) (itn s) false (nstate s)
+  else if (y =? 3) || (y =? 6) then set_cons (set_caller s CAwt) (out s) (fut s) (itn s) false (nstate s)
   else set_prom (set_cons s (out s) (fut s) (itn s) (awake s) false) CInternal FSync (Some a) (ret s) (exn s) (done s) false (awaiting s).
 
 Lemma access_live : forall y a s, Inv s -> valid_style y -> (bst s = BInit \/ bst s = BYield) ->
@@ -232,7 +232,7 @@ Proof.
   destruct s as [lv cr pc0 gd cu bs ca fn ap rt ex dn bl aw ot fu it ak ns er].
   unfold Inv in HI. cbn [err bst out caller done exn gds ret] in HI. cbn [bst] in Hb.
   destruct HI as [He HI].
-  destruct (valid_style_cases y Hy) as [->|[->|[->|[->|[->| ->]]]]];
+  destruct (valid_style_cases y Hy) as [->|[->|[->|[->|[->|[->| ->]]]]]];
   destruct Hb as [-> | ->]; destruct HI as (Ho & Hc & Hd & Hx & Hr); subst; vm_compute; reflexivity.
 Qed.
 
@@ -242,7 +242,7 @@ Proof.
   destruct s as [lv cr pc0 gd cu bs ca fn ap rt ex dn bl aw ot fu it ak ns er].
   unfold Inv in HI. cbn [err bst out caller done exn gds ret] in HI. cbn [bst] in Hb.
   destruct HI as [He HI].
-  destruct (valid_style_cases y Hy) as [->|[->|[->|[->|[->| ->]]]]];
+  destruct (valid_style_cases y Hy) as [->|[->|[->|[->|[->|[->| ->]]]]]];
   destruct Hb as [-> | ->]; destruct HI as (Ho & Hc & Hd & Hx & Hr); subst;
   unfold armed, waiting; vm_compute; repeat split; eauto; try discriminate; intro; discriminate.
 Qed.
@@ -251,7 +251,7 @@ Lemma arm_frame : forall y a s,
   pc (arm y a s) = pc s /\ gds (arm y a s) = gds s /\ cur (arm y a s) = cur s /\ bst (arm y a s) = bst s /\
   argp (arm y a s) = Some a /\ live (arm y a s) = live s /\ created (arm y a s) = created s.
 Proof.
-  intros. unfold arm. destruct (fut_style y); [|destruct (y =? 3)]; cbn; repeat split; reflexivity.
+  intros. unfold arm. destruct (fut_style y); [|destruct ((y =? 3) || (y =? 6))]; cbn; repeat split; reflexivity.
 Qed.
 
 Definition step_items (ev : list event) (r : res) : list item := arg_items ev ++ res_item r.
@@ -370,7 +370,7 @@ Proof.
   destruct s as [lv cr pc0 gd cu bs ca fn ap rt ex dn bl aw ot fu it ak ns er].
   unfold Inv in HI. cbn [err bst out caller done exn gds ret pc] in HI. cbn [bst] in Hb. subst bs.
   destruct HI as (He & Ho & Hc & Hg & Hp & Hr & Hd). subst.
-  destruct (valid_style_cases y Hy) as [->|[->|[->|[->|[->| ->]]]]];
+  destruct (valid_style_cases y Hy) as [->|[->|[->|[->|[->|[->| ->]]]]]];
   destruct Hd as [(-> & ->)|(-> & e & ->)]; vm_compute;
   repeat split; eauto; try discriminate; try (intro; discriminate); try (intro H; exfalso; apply H; reflexivity).
 Qed.
@@ -818,3 +818,200 @@ Proof.
   apply nth_error_split' in Esp. unfold sp in Esp at 1. apply spec_args in Esp. exact Esp.
 Qed.
 
+
+(* ======================= wire level: the oracle applied to the model's own wire output ======================= *)
+Definition keep_ev (ha : bool) (e : event) : bool := match e with EArg _ => ha | _ => true end.
+
+Lemma dec_enc_events ha l : dec_events (enc_events ha l) = filter (keep_ev ha) l.
+Proof.
+  induction l as [|e l IH]; [reflexivity|].
+  destruct e; cbn [enc_events filter keep_ev]; try (cbn; rewrite IH; reflexivity).
+  destruct ha; cbn; rewrite IH; reflexivity.
+Qed.
+
+Lemma dec_enc_res r : dec_res (fst (enc_res r)) (snd (enc_res r)) = r.
+Proof. destruct r; reflexivity. Qed.
+
+Definition filt_obs (ha : bool) (o : obs) : obs :=
+  mkObs (o_st o) (o_res o) (o_done o) (o_news o) (o_dels o) (filter (keep_ev ha) (o_ev o)) (o_cnt o).
+
+Lemma dec_enc_obs ha o : dec_obs (encode_obs ha o) = filt_obs ha o.
+Proof. unfold encode_obs, dec_obs, filt_obs. rewrite dec_enc_res, dec_enc_events. reflexivity. Qed.
+
+Lemma arg_items_filter ha l : arg_items (filter (keep_ev ha) l) = if ha then arg_items l else [].
+Proof.
+  induction l as [|e l IH]; [destruct ha; reflexivity|].
+  destruct e; cbn [filter keep_ev arg_items]; auto.
+  destruct ha; cbn; rewrite IH; reflexivity.
+Qed.
+
+Definition not_arg (p : item * nat) : bool := match fst p with XArg _ => false | _ => true end.
+
+Lemma visible_filter l : visible false l = filter not_arg l.
+Proof. reflexivity. Qed.
+
+Lemma res_item_not_arg r n : filter not_arg (map (fun i => (i, n)) (res_item r)) = map (fun i => (i, n)) (res_item r).
+Proof. destruct r; reflexivity. Qed.
+
+Lemma arg_items_all_arg l n : filter not_arg (map (fun i => (i, n)) (arg_items l)) = [].
+Proof. induction l as [|e l IH]; [reflexivity|]. destruct e; cbn; auto. Qed.
+
+(* the log computed from the decoded wire observations is the visible part of the model's log *)
+Lemma log_of_filt ha : forall ops os nc,
+  visible ha (log_of ops (map (filt_obs ha) os) nc) = visible ha (log_of ops os nc).
+Proof.
+  destruct ha.
+  - intros ops os nc. f_equal. f_equal.
+    assert (H : forall l, filter (keep_ev true) l = l) by (induction l as [|e l IH]; [reflexivity|destruct e; cbn; rewrite IH; reflexivity]).
+    induction os as [|o os IH]; [reflexivity|]. cbn [map]. rewrite IH. f_equal.
+    unfold filt_obs. rewrite H. destruct o; reflexivity.
+  - intros ops os nc. rewrite !visible_filter. revert os nc. induction ops as [|x ops IH]; intros [|o os] nc; try reflexivity.
+    cbn [map log_of]. replace (ok (filt_obs false o)) with (ok o) by reflexivity.
+    rewrite !filter_app, IH. f_equal.
+    unfold filt_obs at 1 2. cbn [o_ev o_res]. rewrite arg_items_filter. cbn [app].
+    rewrite map_app, filter_app, arg_items_all_arg. reflexivity.
+Qed.
+
+Lemma call_args_filt ha : forall ops os, call_args ops (map (filt_obs ha) os) = call_args ops os.
+Proof.
+  induction ops as [|x ops IH]; intros [|o os]; try reflexivity; try (destruct x; reflexivity).
+  destruct x; cbn [map call_args]; rewrite ?IH; try reflexivity.
+Qed.
+
+(* ---------- conformance survives hiding the argument items ---------- *)
+Definition ends_kept (ex : list (item * nat)) : Prop := ex = [] \/ not_arg (last ex (XEnd, O)) = true.
+
+Lemma ends_kept_tail p ex : ex <> [] -> ends_kept (p :: ex) -> ends_kept ex.
+Proof. intros Hne [H|H]; [discriminate|]. right. destruct ex; [congruence|exact H]. Qed.
+
+Lemma filter_nonempty_of_last ex : ex <> [] -> not_arg (last ex (XEnd, O)) = true -> filter not_arg ex <> [].
+Proof.
+  induction ex as [|p ex IH]; [congruence|]. intros _ H. cbn [filter].
+  destruct ex as [|q ex'].
+  - cbn in H. rewrite H. discriminate.
+  - destruct (not_arg p); [discriminate|]. apply IH; [discriminate|exact H].
+Qed.
+
+Lemma conforms_filter : forall log ex np, ends_kept ex -> conforms log ex np = true ->
+  conforms (filter not_arg log) (filter not_arg ex) np = true.
+Proof.
+  induction log as [|[r n] log IH]; intros ex np HK H; [reflexivity|].
+  cbn [conforms] in H. destruct ex as [|[x m] ex'].
+  - apply andb_prop in H. destruct H as [H H2]. apply andb_prop in H. destruct H as [H1 H3].
+    apply item_eqb_eq in H1. subst r. cbn [filter not_arg fst conforms]. rewrite H3. cbn.
+    apply (IH [] np); [left; reflexivity|exact H2].
+  - apply andb_prop in H. destruct H as [H H2]. apply andb_prop in H. destruct H as [H1 H3].
+    apply item_eqb_eq in H1. apply Nat.eqb_eq in H3. subst r n.
+    assert (HK' : ends_kept ex') by (destruct ex'; [left; reflexivity|apply (ends_kept_tail (x, m)); [discriminate|exact HK]]).
+    cbn [filter]. destruct (not_arg (x, m)) eqn:E.
+    + cbn [conforms]. rewrite item_eqb_refl, Nat.eqb_refl. cbn. apply IH; assumption.
+    + specialize (IH ex' m HK' H2).
+      destruct ex' as [|q ex''].
+      * (* the dropped item was the last one: impossible, the last item is kept *)
+        destruct HK as [HK|HK]; [discriminate|]. cbn in HK. congruence.
+      * rewrite (conforms_np_irrel _ _ np m); [exact IH|].
+        destruct HK' as [HK'|HK']; [discriminate|]. apply filter_nonempty_of_last; [discriminate|exact HK'].
+Qed.
+
+Lemma spec_ends_kept sc args : ends_kept (spec sc args).
+Proof.
+  unfold spec. destruct (expected_shape sc 0 (hd 0 args) (tl args) 0) as (l & t & n & E & T & _).
+  right. rewrite E. rewrite last_last. unfold not_arg. cbn. destruct t; try discriminate; reflexivity.
+Qed.
+
+(* ---------- no Bad answer, resumption counts ---------- *)
+Lemma settle_not_bad y s : snd (settle y s) <> RBad.
+Proof.
+  unfold settle. destruct (released y s) eqn:R; [|cbn; discriminate].
+  unfold consumer_continue, released in *.
+  destruct (fut_style y) eqn:F.
+  - destruct (sync_style y) eqn:SS; [exfalso; unfold sync_style, fut_style in *; lia|].
+    destruct (fut s); cbn; try discriminate.
+  - cbn. destruct (negb (done s)); cbn; [|discriminate].
+    unfold value_of. cbn.
+    repeat match goal with |- context [match ?x with _ => _ end] => destruct x end; cbn; discriminate.
+Qed.
+
+Lemma access_not_bad y a s : snd (fst (access y a s)) <> RBad.
+Proof.
+  unfold access.
+  repeat match goal with
+  | |- context [if ?c then _ else _] => destruct c
+  end; cbn [fst snd]; try discriminate;
+  match goal with
+  | |- context [run_body ?x ?v] => destruct (run_body x v) as [s3 ev]
+  end;
+  pose proof (settle_not_bad y s3) as H; destruct (settle y s3) as [s4 r]; exact H.
+Qed.
+
+Lemma step_not_bad ha s x : o_res (snd (step ha s x)) <> RBad.
+Proof.
+  destruct x; cbn [step].
+  - destruct (created s); cbn; discriminate.
+  - destruct (live s && _ && style_ok ha y); [|cbn; discriminate].
+    pose proof (access_not_bad y a s) as H. destruct (access y a s) as [[s1 r] ev]. exact H.
+  - destruct (out s) as [y|]; [|cbn; discriminate]. destruct (bst s); try (cbn; discriminate).
+    destruct (live s && (k =? k0)); [|cbn; discriminate].
+    destruct (run_body s v) as [s1 ev]. pose proof (settle_not_bad y s1) as H. destruct (settle y s1) as [s2 r]. exact H.
+  - destruct (live s && _); cbn; discriminate.
+  - destruct (live s && _); [|cbn; discriminate]. cbn. unfold value_of.
+    repeat match goal with |- context [match ?x with _ => _ end] => destruct x end; discriminate.
+  - cbn. discriminate.
+Qed.
+
+Lemma run_no_bad ha : forall ops s, no_bad (fst (run_from ha s ops)) = true.
+Proof.
+  induction ops as [|x ops IH]; intro s; [reflexivity|].
+  rewrite run_cons. cbn [fst no_bad forallb]. fold (no_bad (fst (run_from ha (fst (step ha s x)) ops))).
+  rewrite IH. pose proof (step_not_bad ha s x) as H. destruct (o_res (snd (step ha s x))); try reflexivity. congruence.
+Qed.
+
+Lemma step_cnt ha s x : 0 <= o_cnt (snd (step ha s x)) <= 1.
+Proof.
+  assert (R : forall y b r, 0 <= resumes y b r <= 1) by (intros y b r; unfold resumes; destruct ((y =? 6) && b); [destruct r|]; lia).
+  destruct x; cbn [step].
+  - destruct (created s); cbn; lia.
+  - destruct (live s && _ && style_ok ha y); [|cbn; lia]. destruct (access y a s) as [[s1 r] ev]. cbn. apply R.
+  - destruct (out s) as [y|]; [|cbn; lia]. destruct (bst s); try (cbn; lia).
+    destruct (live s && (k =? k0)); [|cbn; lia].
+    destruct (run_body s v) as [s1 ev]. destruct (settle y s1) as [s2 r]. cbn. apply R.
+  - destruct (live s && _); cbn; lia.
+  - destruct (live s && _); cbn; lia.
+  - cbn. lia.
+Qed.
+
+Lemma run_length ha : forall ops s, length (fst (run_from ha s ops)) = length ops.
+Proof. induction ops as [|x ops IH]; intro s; [reflexivity|]. rewrite run_cons. cbn. rewrite IH. reflexivity. Qed.
+
+(* C13 at wire level: for every case whose first op is a well-formed Create, the oracle clauses "same number of
+   lines", "no Bad answer", "the visible log conforms to the specification of the script" and "resumption counts
+   in {0,1}" hold when the oracle is applied to the model's own wire output (encode, then decode as the oracle does) *)
+Theorem gen_oracle_core : forall ha scw wops, Nat.even (length scw) = true ->
+  let wire := (0 :: scw) :: wops in
+  let ops := map (decode ha) wire in
+  let os := map dec_obs (gen_run ha wire) in
+  length ops = length os /\
+  no_bad os = true /\
+  conforms (visible ha (log_of ops os 0)) (visible ha (spec (decode_script ha scw) (call_args ops os))) 0 = true /\
+  forallb (fun o => (0 <=? o_cnt o) && (o_cnt o <=? 1)) os = true.
+Proof.
+  intros ha scw wops He wire ops os. subst os. unfold gen_run. fold ops.
+  rewrite map_map. rewrite (map_ext _ (filt_obs ha) (dec_enc_obs ha)).
+  set (ros := fst (run_from ha sys0 ops)).
+  assert (Hops : ops = OCreate (decode_script ha scw) :: map (decode ha) wops).
+  { unfold ops, wire. cbn [map decode]. rewrite He. reflexivity. }
+  split; [rewrite map_length; unfold ros; rewrite run_length; reflexivity|].
+  split.
+  { unfold no_bad. rewrite forallb_forall. intros o Ho. apply in_map_iff in Ho. destruct Ho as (o' & <- & Ho').
+    pose proof (run_no_bad ha ops sys0) as H. unfold no_bad in H. rewrite forallb_forall in H. exact (H o' Ho'). }
+  split.
+  { rewrite log_of_filt, call_args_filt.
+    pose proof (gen_conforms ha (decode_script ha scw) (map (decode ha) wops)) as HC. cbv zeta in HC. rewrite <- Hops in HC. fold ros in HC.
+    destruct ha; [exact HC|].
+    rewrite !visible_filter. apply conforms_filter; [apply spec_ends_kept|exact HC]. }
+  rewrite forallb_forall. intros o Ho. apply in_map_iff in Ho. destruct Ho as (o' & <- & Ho').
+  unfold filt_obs. cbn [o_cnt].
+  assert (H : forall ops0 s, Forall (fun o => 0 <= o_cnt o <= 1) (fst (run_from ha s ops0))).
+  { induction ops0 as [|x0 ops0 IH]; intro s; [constructor|]. rewrite run_cons. cbn [fst]. constructor; [apply step_cnt|apply IH]. }
+  specialize (H ops sys0). rewrite Forall_forall in H. specialize (H o' Ho'). lia.
+Qed.
